@@ -231,11 +231,11 @@ fn show_event(ev: &DebuggerEvent, ld: &Loaded) -> String {
 // the controller thread: executes the command list against the real DebuggerContext
 // ------------------------------------------------------------------------------------------
 #[derive(Clone, Debug)]
-enum Cmd { Run, Cont, Recv, Add(usize), Del(usize), AddAll }
+enum Cmd { Run, Cont, Recv, Add(usize), Del(usize), AddAll, Sleep }
 
 fn parse_cmds(s: &str) -> Vec<Cmd> {
     s.split(',').filter(|x| !x.is_empty()).map(|x| match &x[..1] {
-        "R" => Cmd::Run, "K" => Cmd::Cont, "V" => Cmd::Recv, "L" => Cmd::AddAll,
+        "R" => Cmd::Run, "K" => Cmd::Cont, "V" => Cmd::Recv, "L" => Cmd::AddAll, "S" => Cmd::Sleep,
         "A" => Cmd::Add(x[1..].parse().unwrap()), "D" => Cmd::Del(x[1..].parse().unwrap()),
         _ => panic!("bad command {}", x),
     }).collect()
@@ -300,6 +300,7 @@ fn controller(cfg: &'static Cfg, ld: Arc<Loaded>, cap: usize, bps: Vec<usize>, c
             Cmd::Add(r) => ctx.add_breakpoint(ld.names[r].clone()),
             Cmd::Del(r) => ctx.delete_breakpoint(&ld.names[r]),
             Cmd::AddAll => ctx.add_all_rules_breakpoints().expect("grammar loaded"),
+            Cmd::Sleep => std::thread::sleep(Duration::from_millis(25)),
         }
     }
     if !aborted {
@@ -514,6 +515,28 @@ fn cli_mode(loaded: &[Arc<Loaded>], bin: &str, delay: u64, out: &mut impl Write)
     writeln!(out, "#SUMMARY\tevaluations={}", n).unwrap();
 }
 
+/// natural timing: the gates are open, the controller executes its commands (S = a pause of 25 ms) while the parsing thread
+/// runs as the OS schedules it; whatever interleaving results, the observations have to satisfy the specification
+fn free_run(cfg: &'static Cfg, ld: &Arc<Loaded>, cap: usize, bps: &[usize], cmds: &[Cmd]) -> String {
+    new_epoch(true);
+    let sh = Arc::new(Shared { rx: Mutex::new(None), obs: Mutex::new(Vec::new()), finished: Mutex::new(false), cleaned: Mutex::new(false) });
+    let (ld2, sh2, bps2, cmds2) = (Arc::clone(ld), Arc::clone(&sh), bps.to_vec(), cmds.to_vec());
+    let th = std::thread::spawn(move || controller(cfg, ld2, cap, bps2, cmds2, sh2));
+    let t0 = Instant::now();
+    while !*sh.finished.lock().unwrap() && t0.elapsed() < Duration::from_millis(6000) { std::thread::sleep(Duration::from_millis(2)); }
+    let status = if *sh.finished.lock().unwrap() { "FIN" } else { "STUCK" };
+    with_gate(|g| { g.free = true; g.abandon = true; });
+    CV.notify_all();
+    let deadline = Instant::now() + Duration::from_millis(if status == "FIN" { 5000 } else { 600 });
+    while !*sh.cleaned.lock().unwrap() && Instant::now() < deadline {
+        if let Ok(slot) = sh.rx.try_lock() { if let Some(rx) = slot.as_ref() { while rx.try_recv().is_ok() {} } }
+        std::thread::sleep(Duration::from_millis(1));
+    }
+    if *sh.cleaned.lock().unwrap() { let _ = th.join(); }
+    let obs = sh.obs.lock().unwrap().join(",");
+    format!("|{}|{}", obs, status)
+}
+
 fn main() {
     let loud = std::env::var("C17_LOUD").is_ok();
     std::panic::set_hook(Box::new(move |info| {
@@ -578,6 +601,23 @@ fn main() {
                 writeln!(out, "{}\t{}\t{}\t{}\t{}\t{}", f[0], f[1], f[2], f[3], f[4], obs).unwrap();
             }
             writeln!(out, "#SUMMARY\tevaluations={}\ttimeouts={}", n, timeouts).unwrap();
+        }
+        "free" => {
+            let stdin = std::io::stdin();
+            let mut n = 0u64;
+            for line in stdin.lock().lines() {
+                let line = line.unwrap();
+                if line.starts_with('#') || line.starts_with("MODE") || line.starts_with("CFG") { writeln!(out, "{}", line).unwrap(); continue; }
+                let f: Vec<&str> = line.split('\t').collect();
+                if f.len() < 4 { continue; }
+                let ci = CFGS.iter().position(|c| c.id == f[0]).expect("cfg");
+                let cap: usize = f[1].parse().unwrap();
+                let bps: Vec<usize> = f[2].split(',').filter(|x| !x.is_empty()).map(|x| x.parse().unwrap()).collect();
+                let obs = free_run(&CFGS[ci], &loaded[ci], cap, &bps, &parse_cmds(f[3]));
+                n += 1;
+                writeln!(out, "{}\t{}\t{}\t{}\tFREE\t{}", f[0], f[1], f[2], f[3], obs).unwrap();
+            }
+            writeln!(out, "#SUMMARY\tevaluations={}\ttimeouts=0", n).unwrap();
         }
         "cli" => cli_mode(&loaded, &arg(2), arg(3).parse().unwrap_or(40), &mut out),
         _ => { eprintln!("usage: c17 entries | c17 force < cases | c17 cli <pest_debugger binary> <delay ms> < sessions"); std::process::exit(2); }
